@@ -206,6 +206,44 @@ for _n in POOL:
     KEY.append(_KEYS.setdefault(_h, len(_KEYS)))
 
 
+_KEYSB = {}
+KEYB = []
+for _n in POOL:
+    try:
+        _h = hash_contraction(_n.sym_inputs(), _n.sym_output(), _n.sym_sizes(), "b")
+    except Exception:
+        _h = ("pool", len(KEYB))
+    KEYB.append(_KEYSB.setdefault(_h, len(_KEYSB)))
+
+
+def base_mode(mode):
+    """modes may carry option flags: '<mode>+b' = hash_method 'b', '+dir' = a disk cache directory,
+    '+flat' = directory_split=False"""
+    return mode.split("+")[0]
+
+
+def mode_flags(mode):
+    return mode.split("+")[1:]
+
+
+def keyof(mode, nid):
+    return KEYB[nid] if "b" in mode_flags(mode) else KEY[nid]
+
+
+def net_of_tree_canon(tree, nid):
+    """`nid` if the tree is built over the canonicalised form of pool contraction `nid` (what
+    `array_contract_tree(..., canonicalize=True)` searches), else -1"""
+    from cotengra import interface as _I
+    n = POOL[nid]
+    try:
+        ins, out, sd, _ = _I.normalize_input(n.sym_inputs(), n.sym_output(), n.sym_sizes(), None, "greedy", True)
+        ok = [tuple(t) for t in tree.inputs] == [tuple(t) for t in ins] and tuple(tree.output) == tuple(out) \
+            and all(dict(tree.size_dict).get(k) == v for k, v in dict(sd).items()) and tree.N == len(n.inputs)
+        return nid if ok else -1
+    except Exception:
+        return -1
+
+
 def net_of_tree(tree):
     """pool id of the contraction the tree is built over, -1 if none."""
     try:
@@ -465,6 +503,7 @@ def instrument_auto(aopt):
     return aopt
 
 
+_TMPDIRS = []
 HYPER_KW = dict(methods=("greedy",), optlib="random", max_repeats=2, max_time=None, parallel=False,
                 progbar=False)
 
@@ -499,6 +538,17 @@ def make_optimizer(mode, instr="private", **over):
     hyper_kw.update(over)
     if instr == "public":
         hyper_kw["minimize"] = HookObjective()
+    flags = mode_flags(mode)
+    mode = base_mode(mode)
+    if mode.startswith("reusable"):
+        if "b" in flags:
+            hyper_kw["hash_method"] = "b"
+        if "dir" in flags:
+            import tempfile
+            hyper_kw["directory"] = tempfile.mkdtemp(prefix="c16-cache-")
+            _TMPDIRS.append(hyper_kw["directory"])
+            if "flat" in flags:
+                hyper_kw["directory_split"] = False
     if mode.startswith("pool"):
         # one ReusableHyperOptimizer whose sub-searches dispatch their trials to a user-supplied
         # executor (public API: `parallel=<executor>`); see harness/c16_pool.py
@@ -507,7 +557,8 @@ def make_optimizer(mode, instr="private", **over):
     if mode.startswith("reusable"):
         kind = mode.split("-")[1]
         if kind == "rgreedy":
-            return wrap_r(ReusableRandomGreedyOptimizer(max_repeats=2))
+            rk = {k: hyper_kw[k] for k in ("hash_method", "directory", "directory_split") if k in hyper_kw}
+            return wrap_r(ReusableRandomGreedyOptimizer(max_repeats=2, **rk))
         ov = {"no": False, "yes": True, "improved": "improved", "cacheonly": False}[kind]
         return wrap_r(ctg.ReusableHyperOptimizer(overwrite=ov, cache_only=(kind == "cacheonly"), **hyper_kw))
     kw = dict(hyper_kw)
@@ -522,6 +573,7 @@ def make_optimizer(mode, instr="private", **over):
 
 
 def model_mode(mode):
+    mode = base_mode(mode)
     if mode.startswith("reusable"):
         kind = mode.split("-")[1]
         return {"mode": "reusable", "overwrite": {"yes": "yes", "improved": "improved"}.get(kind, "no"),
@@ -608,6 +660,9 @@ def run_threads(mode, programs, chooser=None, free=False, use_call=False, instr=
         t.join(timeout=60)
     obs = {"results": results, "errors": errors, "schedule": list(ctl.effective),
            "enabled": ctl.enabled_log, "completed": completed and all(not t.is_alive() for t in ths)}
+    while _TMPDIRS:
+        import shutil
+        shutil.rmtree(_TMPDIRS.pop(), ignore_errors=True)
     obs["instr"] = instr
     obs["seg_labels"] = list(ctl.seg_labels)
     obs["nodes"] = nodes
@@ -643,7 +698,7 @@ def _observe_private(opt, mode, programs, obs):
                 hh = hash_contraction(net.sym_inputs(), net.sym_output(), net.sym_sizes(), robj._hash_method)
                 if robj.directory_split:
                     hh = (hh[:2], hh[2:])
-                keys.append([KEY[nid], hh in robj._cache._inner])
+                keys.append([keyof(mode, nid), hh in robj._cache._inner])
             ded = {}
             for k, v in keys:
                 ded[k] = v
@@ -673,7 +728,7 @@ def oracle(programs, obs, mode=None):
             if got is not None and got != nid:
                 return ("tree-of-another-contraction", {"thread": i, "asked": nid, "returned": got})
         for e in obs["errors"][i]:
-            if not (e == "KeyError" and mode == "reusable-cacheonly"):
+            if not (e == "KeyError" and mode is not None and base_mode(mode) == "reusable-cacheonly"):
                 return ("call-raised", {"thread": i, "error": e})
     return None
 
@@ -684,7 +739,7 @@ def model_compare(drv, mode, programs, obs):
     trials = [[[allsc.index(s)] for s in per] + [[0]] * 4 for per in obs["scores"]]
     if mm["mode"] == "auto_plain":
         trials = [[[k] for k in range(len(p) + 2)] for p in programs]
-    resp = drv.call("c16.run", queues=[[[nid, KEY[nid], bool(HARD[nid])] for nid in p] for p in programs],
+    resp = drv.call("c16.run", queues=[[[nid, keyof(mode, nid), bool(HARD[nid])] for nid in p] for p in programs],
                     trials=trials, schedule=obs["schedule"], fresh_plain=True, obj_of=obs["obj_of"], **mm)
     if "error" in resp:
         return "driver error: " + resp["error"]
@@ -717,7 +772,7 @@ def model_compare_labelled(drv, mode, programs, obs, allsc):
             node = obs["nodes"][i][j] if j < len(obs["nodes"][i]) else {}
             sc = node.get("score")
             rank = allsc.index(sc) if sc in allsc else 0
-            q.append({"q": [nid, KEY[nid], bool(HARD[nid])], "kind": mm["mode"], "obj": obs["obj_of"][i],
+            q.append({"q": [nid, keyof(mode, nid), bool(HARD[nid])], "kind": mm["mode"], "obj": obs["obj_of"][i],
                       "call": False, "trials": [{"nested": [], "score": rank}]})
         queues.append(q)
     objs = sorted(set(obs["obj_of"]))
@@ -725,7 +780,7 @@ def model_compare_labelled(drv, mode, programs, obs, allsc):
                     cache_only=objs if mm["cache_only"] else [],
                     segments=[[t, l] for t, l in zip(obs["schedule"], obs["seg_labels"])],
                     observable=OBSERVABLE,
-                    probe=[[obs["obj_of"][i], KEY[nid]] for i, p in enumerate(programs) for nid in dict.fromkeys(p)])
+                    probe=[[obs["obj_of"][i], keyof(mode, nid)] for i, p in enumerate(programs) for nid in dict.fromkeys(p)])
     if "error" in resp:
         return "c16.nrun driver error: " + resp["error"]
     if resp["mismatch"] is not None:
@@ -763,7 +818,7 @@ def model_compare_identity(drv, mode, programs, obs, allsc):
     mm = model_mode(mode)
     trials = [[[allsc.index(s) if s in allsc else 0] for s in per] + [[0]] * 4 for per in obs["scores"]]
     resp = drv.call("c16.srun", policy="fresh", overwrite=mm["overwrite"], cache_only=mm["cache_only"],
-                    queues=[[[nid, KEY[nid], bool(HARD[nid])] for nid in p] for p in programs], trials=trials,
+                    queues=[[[nid, keyof(mode, nid), bool(HARD[nid])] for nid in p] for p in programs], trials=trials,
                     segments=[[t, l] for t, l in zip(obs["schedule"], obs["seg_labels"])])
     if "error" in resp:
         return "c16.srun driver error: " + resp["error"]
@@ -951,14 +1006,16 @@ def presets_run(programs, free):
     results = [[] for _ in range(n)]
 
     def worker(i):
-        for name, nid in programs[i]:
+        for ent in programs[i]:
+            name, nid = ent[0], ent[1]
+            canon = bool(ent[2]) if len(ent) > 2 else False
             net = POOL[nid]
             try:
                 with warnings.catch_warnings():
                     warnings.simplefilter("ignore")
                     tree = ctg.array_contract_tree(net.sym_inputs(), net.sym_output(), net.sym_sizes(),
-                                                   optimize=name, canonicalize=False)
-                results[i].append([nid, net_of_tree(tree)])
+                                                   optimize=name, canonicalize=canon)
+                results[i].append([nid, net_of_tree_canon(tree, nid) if canon else net_of_tree(tree)])
             except Exception as e:
                 results[i].append([nid, None])
 
@@ -980,14 +1037,15 @@ def presets_run(programs, free):
 
 def check_presets(ctx, nthreads, nq):
     rng = ctx.rng
-    programs = [[[rng.choice(PRESETS), rng.randrange(len(POOL) - 1)] for _ in range(nq)]
+    programs = [[[rng.choice(PRESETS), rng.randrange(len(POOL) - 1), rng.random() < 0.4] for _ in range(nq)]
                 for _ in range(nthreads)]
     res = presets_run(programs, nthreads > 1)
     ctx.count("S:presets:%s" % ("threads" if nthreads > 1 else "sequential"))
     case = {"kind": "presets", "programs": programs}
     ctx.case(case, nontrivial=True, sample=False)
     for i, per in enumerate(res):
-        for (name, nid), (_, got) in zip(programs[i], per):
+        for ent, (_, got) in zip(programs[i], per):
+            name, nid = ent[0], ent[1]
             if got is not None and got != nid:
                 ctx.violation({"site": "array_contract_tree", "optimizer": "preset:" + name,
                                "kind": "tree-of-another-contraction"},
@@ -1358,6 +1416,10 @@ def replay_case(case):
         return c16_iface.replay_case(case)
     if kind == "schedule":
         sched = list(case["schedule"])
+        try:        # warm-up, see run()
+            run_threads(case["mode"], [[3, 0]], None, free=True, instr="none")
+        except Exception:
+            pass
 
         def chooser(enabled, k):
             if k < len(sched) and sched[k] in enabled:
@@ -1391,7 +1453,8 @@ def replay_case(case):
         for _ in range(10):
             res = presets_run(case["programs"], len(case["programs"]) > 1)
             for i, per in enumerate(res):
-                for (name, nid), (_, got) in zip(case["programs"][i], per):
+                for ent, (_, got) in zip(case["programs"][i], per):
+                    name, nid = ent[0], ent[1]
                     if got is not None and got != nid:
                         return False, {"site": "array_contract_tree", "optimizer": "preset:" + name,
                                        "kind": "tree-of-another-contraction"}, ("tree-of-another-contraction", [nid, got])
@@ -1488,7 +1551,7 @@ def run(ctx, drv):
     # this one -- for every mode: at the shared-access yield points (with the model), and at every
     # source line of the methods of reusable.py / presets.py (`sys.settrace`, no private name)
     wn = 0
-    for mode in MODES:
+    for mode in MODES + ("reusable-rgreedy+dir", "reusable-no+b+dir+flat", "reusable-improved+b"):
         for programs in ([[3], [4]], [[4], [3]]) if not mode.startswith("auto") else ([[3], [4]],):
             wn += check_windows(ctx, drv, mode, programs, "private")
     tmodes = ("reusable-no", "reusable-rgreedy", "auto-cached") if quick else MODES
@@ -1529,6 +1592,11 @@ def run(ctx, drv):
         mode = rng.choice(MODES)
         nth = rng.choice([1, 2, 2, 3])
         programs = random_programs(rng, nth, 3, mode)
+        if mode.startswith("reusable"):       # options: fingerprint method, disk cache, flat directory
+            if rng.random() < 0.25:
+                mode += "+b"
+            if rng.random() < 0.12:
+                mode += "+dir" + ("+flat" if rng.random() < 0.4 else "")
         seed = rng.randrange(1 << 30)
         import random as _r
         r2 = _r.Random(seed)
@@ -1660,6 +1728,11 @@ def search(ctx):
 
 
 def replay(ctx, obj):
+    for m in ("reusable-no", "reusable-rgreedy", "auto-cached"):       # warm-up, see run()
+        try:
+            run_threads(m, [[3, 0]], None, free=True, instr="none")
+        except Exception:
+            pass
     holds, sig, bad = replay_case(obj["case"])
     if not holds:
         print("#", bad[0], bad[1])
